@@ -121,8 +121,11 @@ def tlc(sc, module, cfg_text, extra_modules=None, workers=4, timeout=1800, files
         cmd += ["-simulate", simulate]
     cmd.append(module + ".tla")
     env = dict(os.environ)
+    # deep TLA+ recursion (byte sequences) needs a large Java thread stack; a StackOverflowError is not a verdict
+    jto = env.get("JAVA_TOOL_OPTIONS", "") + " -Xss512m"
     if heap:
-        env["JAVA_TOOL_OPTIONS"] = (env.get("JAVA_TOOL_OPTIONS", "") + " -Xmx" + heap).strip()
+        jto += " -Xmx" + heap
+    env["JAVA_TOOL_OPTIONS"] = jto.strip()
     t0 = time.time()
     outp = os.path.join(d, "out.txt")
     with open(outp, "w") as of:
